@@ -1,4 +1,7 @@
 import CoapVerif.Model.Block
+import CoapVerif.Model.BlockCrcv
+import CoapVerif.Model.BlockRtag
+import CoapVerif.Model.BlockNet
 import CoapVerif.Generated.BlockConst
 /- Line-protocol driver for C09 Layer A (block option codec, size negotiation, slicing, received ranges,
    body reassembly, single-body receiver step).  Output formats mirror harness/block.c. -/
@@ -12,6 +15,8 @@ import CoapVerif.Generated.BlockConst
 -- DRIVER-OPS: bbody => Coap.Driver.Block.bodyStep
 -- DRIVER-OPS: srcv => Coap.Driver.Block.srcvStep
 -- DRIVER-OPS: srcv2 => Coap.Driver.Block.srcv2Step
+-- DRIVER-OPS: crcv => Coap.Driver.Block.crcvLine
+-- DRIVER-OPS: srcv3 => Coap.Driver.Block.srcv3Line
 namespace Coap.Driver.Block
 open Coap Coap.Block
 
@@ -184,6 +189,103 @@ def step (op : String) (args : List String) : String :=
       | some its => "M " ++ String.intercalate "," (srcv2Run maxBlk (mkBody bodyLen seed) (if d = "-" then none else nat? d) its none [])
     | _, _, _ => "bad-op"
   | _, _ => "bad-op"
+
+/-! ## `crcv`: the client's Block2 receive path (Model/BlockCrcv.lean) -/
+
+/-- what `coap_get_data_large` shows of a PDU without `body_data`: no payload → total 0; total 0 → the length -/
+def showDeliv (tag : String) (off : Nat) (p : Bytes) (total : Nat) : String :=
+  let t := if p.length = 0 then 0 else if total = 0 then p.length else total
+  s!"{tag}{off}:{p.length}:{t}:{hex8 (fnv p)}"
+
+def showCrcvOut : CrcvOut → String
+  | .plain p => showDeliv "h" 0 p p.length
+  | .randomAccess off p total => showDeliv "h" off p total
+  | .err402 => "e402"
+  | .err408 => "e408"
+  | .restart szx => s!"s+q0.{szx}"
+  | .skip => "s"
+  | .next n szx => s!"s+q{n}.{szx}"
+  | .wait => "s"
+  | .block off p total nx =>
+    showDeliv "h" off p total ++ (match nx with | some (n, szx) => s!"+q{n}.{szx}" | none => "")
+  | .last off p total => showDeliv "H" off p total
+  | .body data len => s!"H0:{len}:{len}:{hex8 (fnv (data.take len))}"
+
+def showCrcvState : Option Crcv → String
+  | none => "-"
+  | some lg => if lg.initial then "I" else "R" ++ String.intercalate "+" (lg.recv.map fun r => s!"{r.1}-{r.2}")
+
+def crcvRun (single : Bool) (body : Bytes) (size2 : Option Nat) :
+    List (List Nat) → Option Crcv → List String → List String
+  | [], _, acc => acc.reverse
+  | it :: rest, st, acc =>
+    match it with
+    | num :: m :: szx :: etag :: fmt :: tl =>
+      if szx > 6 ∨ m > 1 ∨ etag > 255 ∨ fmt > 255 ∨ tl.length > 1 then ("bad-op" :: acc).reverse else
+      let chunk := 2 ^ (szx + 4)
+      let off := if num * chunk > body.length then body.length else num * chunk
+      let plen0 := if body.length - off < chunk then body.length - off else chunk
+      let plen := match tl with
+        | [l] => if l ≤ body.length - off then l else plen0
+        | _ => plen0
+      let r : Resp := { blk := some (num, m, szx), payload := (body.drop off).take plen, size2 := size2,
+                        etag := if etag = 0 then none else some [UInt8.ofNat etag], fmt := fmt }
+      let (st', o) := crcvStep single Coap.Generated.rblockCnt 0 st r
+      crcvRun single body size2 rest st' ((showCrcvOut o ++ "/" ++ showCrcvState st') :: acc)
+    | _ => ("bad-op" :: acc).reverse
+
+def crcvLine (args : List String) : String :=
+  match args with
+  | [a, b, c, d, seq] =>
+    match nat? a, nat? b, nat? c with
+    | some single, some bodyLen, some seed =>
+      match (seq.split (· == ',')).toList.mapM (fun x => splitNats x.toString '.') with
+      | none => "bad-op"
+      | some its => "M " ++ String.intercalate ","
+          (crcvRun (single != 0) (mkBody bodyLen seed) (if d = "-" then none else nat? d) its none [])
+    | _, _, _ => "bad-op"
+  | _ => "bad-op"
+
+/-! ## `srcv3`: two interleaved Block1 transfers told apart by Request-Tag (Model/BlockRtag.lean) -/
+
+/-- Request-Tag for code r: 0 = no option, 1 = EMPTY, 2..9 = 1..8 bytes 0x71.., 10..17 = 1..8 bytes 0x51.. -/
+def rtagOf (r : Nat) : Option Bytes :=
+  if r = 0 then none
+  else if r = 1 then some []
+  else if r ≤ 9 then some ((List.range (r - 1)).map fun i => UInt8.ofNat (0x71 + i))
+  else some ((List.range (r - 9)).map fun i => UInt8.ofNat (0x51 + i))
+
+def srcv3Run (maxBlk : Nat) (b0 b1 : Bytes) (withSize1 : Bool) :
+    List (List Nat) → List LgSrcv → List String → List String
+  | [], _, acc => acc.reverse
+  | it :: rest, lgs, acc =>
+    match it with
+    | [t, num, m, szx, r] =>
+      if t > 1 ∨ m > 1 ∨ szx > 6 ∨ r > 17 then ("bad-op" :: acc).reverse else
+      let body := if t = 0 then b0 else b1
+      let chunk := 2 ^ (szx + 4)
+      let (lgs', o) := srcvMultiStep Coap.Generated.rblockCnt 0 maxBlk lgs (rtagOf r) num m szx
+        ((body.drop (num * chunk)).take chunk) (if withSize1 then some body.length else none)
+      -- the Block1 option of the response, as the composed model (Model/BlockNet.lean, `b1Responses`) has it
+      let par : B1Par := { body := body, maxSize := 0, tokLen := 0, optBytes := 0, lastOpt := 0, blk := none, maxBlkC := 0,
+                           rtagLen := 0, maxBlk := maxBlk, room := 0, cap := 0, junk := 0 }
+      let opt := match b1Responses par ⟨num, m, szx, [], none⟩ o with
+        | [(true, some (n, s))] => s!"b{n}.1.{s}"
+        | _ => ""
+      srcv3Run maxBlk b0 b1 withSize1 rest lgs' ((showOut o m ++ opt ++ s!"/{lgs'.length}") :: acc)
+    | _ => ("bad-op" :: acc).reverse
+
+def srcv3Line (args : List String) : String :=
+  match args with
+  | [a, b, c, d, e, f, seq] =>
+    match nat? a, nat? b, nat? c, nat? d, nat? e, nat? f with
+    | some maxBlk, some len1, some seed1, some len2, some seed2, some ws =>
+      match (seq.split (· == ',')).toList.mapM (fun x => splitNats x.toString '.') with
+      | none => "bad-op"
+      | some its => "M " ++ String.intercalate ","
+          (srcv3Run maxBlk (mkBody len1 seed1) (mkBody len2 seed2) (ws != 0) its [] [])
+    | _, _, _, _, _, _ => "bad-op"
+  | _ => "bad-op"
 
 def srcv2Step (args : List String) : String := step "srcv2" args
 def boptStep (args : List String) : String := step "bopt" args
